@@ -20,7 +20,7 @@ CHECKS = {
         "strconv.ParseUint, strings.genericReplacer from SSA) against an RFC 6901 evaluator written in the harness: node identity must agree "
         "and ill-formed or dangling pointers must error. Pointer bytes are fully symbolic (all 256 values) up to length 3 (quick) / 4 (thorough), "
         "and additionally every valid base pointer of 6 document skeletons, in both spellings, carries a window of 1..2 (1..3) symbolic bytes at every "
-        "position; member names are symbolic. Holds within those bounds only; the tilde-leniency defect is carried as a known finding.",
+        "position; index tokens of 3..21 arbitrary digits (the wrap-around region at 2^64); member names are symbolic. Holds within those bounds only; the tilde-leniency defect is carried as a known finding.",
    design="4 C16", technique="symbolic execution of go/ssa + SMT, differential against an RFC 6901 reference evaluator"),
  "C06": dict(
    text="Bounded symbolic model checking of the real uri.*Encoder/*Decoder, cookie escaping, net/url escaping, url.Values.Encode/ParseQuery, "
@@ -34,21 +34,21 @@ CHECKS = {
         "FormatInt/ParseInt/ParseUint/Atoi, uuid String/Parse, net.ParseMAC, netip v4, time.Unix*/UnixMilli/UnixMicro, jx): for EVERY value - one full-width "
         "symbolic variable per type - the text has the format's syntax and parses back to the same value. int8..int64/uint8..uint64/int/uint and bool: every value "
         "(wide integers split into digit-count x sign classes; quick runs a subset of the classes incl. the 10/19/20-digit ones, thorough all); UUID all 2^128; IPv4 all 2^32; MAC length 6 "
-        "all 2^48; unix seconds/milli/micro/nano both directions. NOT covered: floats, time.Format/Parse formats, URL, IPv6, big.*, and jx decoding of wide integers.",
+        "all 2^48; unix seconds/milli/micro/nano both directions; json.EncodeDuration equals time.Duration.String for every int64. NOT covered: floats, time.Format/Parse formats, duration decoding, URL, IPv6, big.*, and JSON number-form unix timestamps of wide integers.",
    design="4 C13", technique="symbolic execution of go/ssa + SMT; wide div/mod chains via a self-checked bit-vector-to-integer translation"),
  "C18": dict(
-   text="Bounded symbolic model checking of the real json.Equal with the jx decoder underneath: pairs and triples of JSON texts built from 28 value templates whose leaves "
+   text="Bounded symbolic model checking of the real json.Equal with the jx decoder underneath: pairs and triples of JSON texts built from 30 value templates whose leaves "
         "(digits, string bytes, escape spellings, member names, whitespace bytes) are symbolic; asserts no error on well-formed texts, reflexivity, symmetry, transitivity and "
         "agreement with equality of the denoted abstract values (objects unordered); single-byte corruption for totality. Structure and integer numbers only: "
         "number spellings with '.', 'e', 'E' (ParseFloat/big.Rat) are outside and NOT decided.",
    design="4 C18", technique="symbolic execution of go/ssa + SMT, differential against abstract-value equality"),
  "C03": dict(
    text="Bounded symbolic model checking of (a) the validate.* kernels with fully symbolic parameters (validate.Int incl. multipleOf against an independently formulated reference; "
-        "count validators; String length in code points; UniqueItems) and (b) the Decode + Validate code GENERATED in this run for a matrix of 20 named schemas (integer bounds incl. "
+        "count validators; String length in code points; UniqueItems) and (b) the Decode + Validate code GENERATED in this run for a matrix of 26 named schemas (integer bounds incl. "
         "exclusive/negative, multipleOf, enums, string length, arrays with min/max/uniqueItems and item validation, objects with required/optional/nullable members, "
-        "additionalProperties:false, nesting, 10- and 18-member objects for the multi-byte required mask): schema-directed JSON texts (valid instances and single-keyword mutants) with "
+        "additionalProperties:false, nesting, 10- and 18-member objects for the multi-byte required mask, three recursive schemas unfolded to depth 2, three allOf schemas): schema-directed JSON texts (valid instances and single-keyword mutants) with "
         "symbolic leaves are accepted exactly when a reference validator over the abstract value says valid. One defect (absent optional array with minItems) is carried as a known finding. "
-        "Floats, pattern, allOf/oneOf and recursion are outside.",
+        "Floats, pattern, oneOf/anyOf and deeper recursion are outside.",
    design="4 C03", technique="symbolic execution of go/ssa (runtime kernels and generated code) + SMT, differential against a reference validator"),
  "C04": dict(
    text="Bounded symbolic model checking of the Encode/Decode code GENERATED in this run for the C03 schema matrix: every accepted instance (symbolic leaves) is re-encoded; the "
@@ -58,7 +58,7 @@ CHECKS = {
  "C09": dict(
    text="Bounded symbolic model checking of (a) internal/bitset.Set/Build and ir.JSONFields.RequiredMask (one step from an arbitrary state; byte boundaries to 20/33 members), "
         "(b) the security gate GENERATED in this run from /repo's templates: every requirement structure over 2 schemes, 12 seeded (thorough: all 255) over 3 schemes, global security "
-        "with overrides / explicit empty / anonymous alternative, and 20 schemes straddling the mask bytes; per request the presence of each credential and the SecurityHandler verdict "
+        "with overrides / explicit empty / anonymous alternative, 20 declared schemes, and operations that mention 9..12 distinct schemes so that their requirement masks have two bytes; per request the presence of each credential and the SecurityHandler verdict "
         "(accept / skip / error) are symbolic; asserts handler-runs => some alternative fully accepted, refused => 401 and one response, unmentioned schemes never consulted, and the 'if' "
         "direction outside the recorded fail-closed finding; (c) credential transport client->server for apiKey header/query/cookie, bearer, basic (real base64), oauth2 scopes with symbolic tokens.",
    design="4 C09", technique="symbolic execution of generated Go (go/ssa) + SMT; requirement structures enumerated, request dimension symbolic"),
